@@ -140,6 +140,8 @@ pub struct WorldCfg {
     pub keep_stale_store: bool,
     /// the group context carries an ExternalSendersExt naming `World::ext_signer` (C16)
     pub external_senders: bool,
+    /// padding of private messages: 0 none, 1 step function (the library default), 2 Padme
+    pub padding: u8,
 }
 
 impl Default for WorldCfg {
@@ -154,6 +156,7 @@ impl Default for WorldCfg {
             providers: vec![Which::Rust],
             keep_stale_store: false,
             external_senders: false,
+            padding: 0,
         }
     }
 }
@@ -161,14 +164,19 @@ impl Default for WorldCfg {
 impl WorldCfg {
     pub fn label(&self) -> String {
         format!(
-            "cs{}{}{}{}{}r{}[{}]",
+            "cs{}{}{}{}{}r{}[{}]{}",
             self.suite,
             if self.tree_ext { "+tree" } else { "-tree" },
             if self.single_welcome { "+1w" } else { "-1w" },
             if self.path_required { "+path" } else { "-path" },
             if self.encrypt_handshake { "+enc" } else { "-enc" },
             self.retention,
-            self.providers.iter().map(|w| &w.name()[..1]).collect::<Vec<_>>().join("")
+            self.providers.iter().map(|w| &w.name()[..1]).collect::<Vec<_>>().join(""),
+            match self.padding {
+                1 => "+step",
+                2 => "+padme",
+                _ => "",
+            }
         )
     }
     pub fn rules(&self) -> DefaultMlsRules {
@@ -182,7 +190,11 @@ impl WorldCfg {
             )
             .with_encryption_options(EncryptionOptions::new(
                 self.encrypt_handshake,
-                mls_rs::client_builder::PaddingMode::None,
+                match self.padding {
+                    1 => mls_rs::client_builder::PaddingMode::StepFunction,
+                    2 => mls_rs::client_builder::PaddingMode::Padme,
+                    _ => mls_rs::client_builder::PaddingMode::None,
+                },
             ))
     }
 }
